@@ -48,13 +48,16 @@ def n_trees(T, max_leaves):
     return sum(by)
 
 
-def expected_counts(T, NMask, NU, sections, leaves, a_rng=None):
+def expected_counts(T, NMask, NU, sections, leaves, a_rng=None, dense=True, per=1):
     e = {}
     if "tm1" in sections:
         for op in ("tm_contains", "tm_len", "tm_is_empty", "tm_iter", "tm_ser"):
             e[op] = T
         e["tm_insert"] = e["tm_remove"] = T * NU
-        e["tm_range"] = T * (NU * NU * 3 + NU * 3 + 1)
+        if dense:  # all pairs of universe points (cross-fragment ones sampled), open lower ends in fragment 0
+            e["tm_range"] = T * (NU * NU * 3 + per * 2)
+        else:  # only ranges inside one fragment
+            e["tm_range"] = T * ((NU // per) * per * per * 3 + per * 2)
     if "tm2" in sections:
         e["tm_or"] = 3 * T * T
         e["tm_and"] = e["tm_sub"] = T * T
@@ -86,8 +89,8 @@ def run(prop, tier, replay):
         mcs = [("mask", MC_MASK.format(nf=2, nr=1, depth=2)), ("expr", MC_EXPR.format(nf=1, nr=2, depth=3))]
         runs = [dict(nf=2, nr=1, embed="dense", section="all", leaves=2),
                 dict(nf=2, nr=1, embed="wide", section="all", leaves=2),
-                dict(nf=1, nr=2, embed="dense", section="all", leaves=3),
-                dict(nf=1, nr=2, embed="wide", section="all", leaves=3)]
+                dict(nf=1, nr=2, embed="dense", section="all", leaves=2),
+                dict(nf=1, nr=2, embed="wide", section="all", leaves=2)]
     else:
         mcs = [("mask", MC_MASK.format(nf=2, nr=1, depth=3)), ("mask2", MC_MASK.format(nf=1, nr=2, depth=4)),
                ("expr", MC_EXPR.format(nf=1, nr=2, depth=4)), ("expr2", MC_EXPR.format(nf=2, nr=1, depth=3))]
@@ -122,7 +125,7 @@ def run(prop, tier, replay):
         i, r = i_run
         tf = os.path.join(wd, f"t{i}.ndjson")
         args = ["--nf", r["nf"], "--nr", r["nr"], "--embed", r["embed"], "--section", r["section"],
-                "--leaves", r["leaves"], "--out", tf]
+                "--leaves", r["leaves"], "--out", tf, "--seed", vlib.seed()]
         if "a_lo" in r:
             args += ["--a-lo", r["a_lo"], "--a-hi", r["a_hi"]]
         vlib.harness_run(binary, args)
@@ -135,6 +138,7 @@ def run(prop, tier, replay):
         for res in ex.map(one, list(enumerate(runs))):
             results.append(res)
     events = accepted = 0
+    skipped_total = {}
     samples = []
     distinct_ops = set()
     exhaustive = True
@@ -146,9 +150,14 @@ def run(prop, tier, replay):
             raise vlib.ToolError(f"trace {i} not fully consumed: {v['out']}")
         secs = ("tm1", "tm2", "m1", "m2", "ev") if r["section"] == "all" else (r["section"],)
         exp = expected_counts(rep["T"], rep["NMask"], rep["NU"], secs, r["leaves"],
-                              (r["a_lo"], r["a_hi"]) if "a_lo" in r else None)
+                              (r["a_lo"], r["a_hi"]) if "a_lo" in r else None,
+                              dense=r["embed"] == "dense", per=r["nr"] + 1)
         exp["univ"] = 1
         got = {k: n for k, n in rep["counts"].items() if n}
+        skipped = rep.get("skipped", {})
+        for k, n in skipped.items():
+            got[k] = got.get(k, 0) + (3 * n if k == "tm_range" else n)
+            skipped_total[k] = skipped_total.get(k, 0) + n
         if got != exp:
             exhaustive = False
             out.report({"kind": "incomplete-trace"}, f"event counts differ from the universe size: got {got} expected {exp}",
@@ -176,7 +185,11 @@ def run(prop, tier, replay):
         "rule": "every operator call over the complete universe of tree maps / masks / expression trees for the "
                 "stated (NF, NR); each event has distinct arguments by construction (counts are checked against the "
                 "universe size computed from the spec constants); non-trivial = judged by Trace_IndexAlgebra.OK",
-        "exhaustive": exhaustive, "model_runs": mc_info, "universes": runs[:8],
+        "exhaustive": exhaustive and not skipped_total, "model_runs": mc_info, "universes": runs[:8],
         "operators_exercised": sorted(distinct_ops), "harness_build_s": build_s,
+        "costly_cases_skipped": skipped_total,
+        "costly_cases_note": "operator applications that materialise RoaringBitmap::full() (512 MiB, ~1 s each) are "
+                             "sampled by a seeded hash (about 8 per operator and universe) instead of enumerated; "
+                             "all other cases are enumerated completely",
     }, time.time() - t0, len(out.violations), assumptions)
     return rc
